@@ -343,7 +343,14 @@ def main():
     ap.add_argument("--sub")
     a = ap.parse_args()
     if a.setup:
-        t = build([])
+        # only the harnesses of registered checks (work-in-progress files in harness/ are not built)
+        targets = {"gstlearn"}
+        for cfg in PROPS.values():
+            for sdef in cfg.get("subs", []):
+                targets.add(sdef["binary"])
+            if cfg.get("custom") == "c09":
+                targets.add("fz_loaders")
+        t = build(sorted(targets))
         log("setup: build complete in %.0fs" % t)
         return 0
     if a.pid not in PROPS:
